@@ -115,7 +115,7 @@ func (n *Node) UnmarshalJSON(data []byte) error {
 			return err
 		}
 		n.V = m
-	case "n", "z", "v", "I":
+	case "n", "z", "v", "I", "N":
 		var i int
 		if err := json.Unmarshal(raw.V, &i); err != nil {
 			return err
@@ -168,6 +168,9 @@ func PlainTable() *Table {
 	t := &Table{Name: "plain", Strings: map[string]string{}, Keys: map[string]string{},
 		Numbers: map[string]float64{"1000001": 2261634.5098039214}}
 	t.Strings["sA"] = "AAAAAAAA"
+	// keys whose text is a decimal numeral or "-" always have a symbolic name, so that a
+	// pointer token can be abstracted the same way whether it names a key or an index
+	t.Keys["n0"], t.Keys["n1"], t.Keys["n2"], t.Keys["dash"] = "0", "1", "12", "-"
 	t.Init()
 	return t
 }
